@@ -5,6 +5,7 @@ use rustc_hir::def_id::DefId;
 use rustc_middle::mir::interpret::{AllocId, GlobalAlloc, Scalar};
 use rustc_middle::mir::*;
 use rustc_middle::ty::print::{with_no_trimmed_paths, PrintTraitRefExt};
+use rustc_middle::ty::TypeVisitableExt;
 use rustc_middle::ty::{self, GenericArgsRef, Instance, Ty, TyCtxt, TypingEnv};
 use rustc_span::Span;
 use std::collections::HashMap;
@@ -213,6 +214,16 @@ impl<'a, 'tcx> Cx<'a, 'tcx> {
                 o.push(("k", J::s("tuple")));
                 let v: Vec<J> = ts.iter().map(|t| self.ty(t)).collect();
                 o.push(("elems", J::Arr(v)));
+                // field offsets and size, when the layout is known (monomorphic tuple): constants of tuple
+                // type (tables of pairs) are decoded with them
+                let env = ty::TypingEnv::fully_monomorphized();
+                if !ty.has_non_region_param() {
+                    if let Ok(lay) = tcx.layout_of(env.as_query_input(ty)) {
+                        let offs: Vec<J> = (0..ts.len()).map(|i| J::Int(lay.fields.offset(i).bytes() as i128)).collect();
+                        o.push(("offs", J::Arr(offs)));
+                        o.push(("size", J::Int(lay.size.bytes() as i128)));
+                    }
+                }
             }
             ty::Closure(did, args) => {
                 o.push(("k", J::s("closure")));
